@@ -304,6 +304,7 @@ let spec_session cfgs chunks obs =
     let limits_bad = ref false in
     let auth_bad = ref false in
     let content_bad = ref false in
+    let header_bad = ref false in
     let cur_from = ref [] in       (* sender of the last accepted MAIL FROM: what a From: field added on the submission port carries *)
     let stored = ref 0 in      (* recipients accepted in the open transaction (for "second recipient of a bounce") *)
     let rec go = function
@@ -350,7 +351,9 @@ let spec_session cfgs chunks obs =
                    if r2 = 250 then
                      (match !hs with
                       | (e, m) :: t -> hs := t; let par = { sp_on = o.o_submission; sp_date = o.o_subm_date; sp_from = !cur_from; sp_stamp = o.o_subm_stamp; sp_host = o.o_msgidhost } in
-                          if not (handoff_msg_ok par plines m) then content_bad := true;
+                          if not (handoff_msg_ok par plines m) then content_bad := true
+                          (* what stands in front of the data: a block of valid header fields (C02_trace_checker_sound) *)
+                          else if not (handoff_hdr_check par plines m) then header_bad := true;
                           emit [Handoff (e, m); Note NBoundary; Reply (n_of_int r2)]
                       | [] -> emit [Note NBoundary; Handoff ([], []); Reply (n_of_int r2)])   (* 250 without a hand-off: rejected by queue_run *)
                    else emit [Note NBoundary; Reply (n_of_int r2)];
@@ -377,6 +380,7 @@ let spec_session cfgs chunks obs =
     if !limits_bad then bad := "limits" :: !bad;
     if !auth_bad then bad := "auth" :: !bad;
     if !content_bad then bad := "message" :: !bad;
+    if !header_bad then bad := "header" :: !bad;
     (match trace_run o !evs a_init with None -> bad := "trace" :: !bad | Some _ -> ());
     (match queue_run o !evs QIdle with None -> bad := "queue" :: !bad | Some _ -> ());
     if !bad = [] then "ok" else "bad:" ^ String.concat "," (List.rev !bad)
